@@ -18,13 +18,25 @@ namespace {
 
 using namespace c03;
 
-template <typename A, typename B, typename C>
+// a trivially destructible / trivially copyable *class* alternative: unlike `int` it is accepted by the converting
+// assignment's is_assignable constraint, so `v = Pod{..}` over a live tracked alternative takes the converting path
+struct Pod {
+    int v;
+    Pod() = default;
+    Pod(int x) : v(x) { }
+    [[nodiscard]] auto get() const -> int { return v; }
+    friend auto operator==(Pod const&, Pod const&) -> bool = default;
+    friend auto operator<=>(Pod const&, Pod const&)        = default;
+};
+static_assert(std::is_trivially_destructible_v<Pod> && std::is_trivially_copyable_v<Pod>);
+
+template <typename A, typename B, typename C, typename T1 = int>
 struct VAR {
-    using V                  = etl::variant<A, int, B, C>;
+    using V                  = etl::variant<A, T1, B, C>;
     static constexpr bool CP = std::is_copy_constructible_v<A>;
 
     template <std::size_t I>
-    using alt_t = std::conditional_t<I == 0, A, std::conditional_t<I == 1, int, std::conditional_t<I == 2, B, C>>>;
+    using alt_t = std::conditional_t<I == 0, A, std::conditional_t<I == 1, T1, std::conditional_t<I == 2, B, C>>>;
     template <std::size_t I>
     using ic = std::integral_constant<std::size_t, I>;
 
@@ -365,14 +377,15 @@ using VCO = VAR<TV<0, Kind::copy_only>, TV<1, Kind::copy_only>, TV<2, Kind::copy
 using VTA = VAR<TA<0>, TA<1>, TA<2>>;
 using VNC = VAR<NC<0>, NC<1>, NC<2>>; // copy constructor/assignment noexcept(false): is_nothrow_* selected paths
 using VAO = VAR<AO<0>, AO<1>, AO<2>>; // overloaded unary operator&
-constexpr std::uint32_t nkinds = 6;
-char const* const kind_names[] = {"TCM", "TMO", "TCO", "TA (trivially assignable)", "NC (copy may throw)", "AO (overloaded operator&)"};
+using VPD = VAR<TV<0, Kind::copy_move>, TV<1, Kind::copy_move>, TV<2, Kind::copy_move>, Pod>; // alternative 1 is a trivial class
+constexpr std::uint32_t nkinds = 7;
+char const* const kind_names[] = {"TCM", "TMO", "TCO", "TA (trivially assignable)", "NC (copy may throw)", "AO (overloaded operator&)", "TCM with a trivial class as alternative 1"};
 // The TU is built twice (registry flags -DC03_PART=1: kinds 0..2, =2: kinds 3..5) so that the halves compile in parallel.
 #ifndef C03_PART
 #define C03_PART 0
 #endif
 constexpr std::uint32_t kind_lo = (C03_PART == 2 ? 3 : 0);
-constexpr std::uint32_t kind_hi = (C03_PART == 1 ? 3 : 6);
+constexpr std::uint32_t kind_hi = (C03_PART == 1 ? 3 : 7);
 auto run_cell(Cell const& c) -> std::string
 {
     std::string d;
@@ -386,6 +399,7 @@ auto run_cell(Cell const& c) -> std::string
     case 3: d = VTA::matrix_case(c.op, c.from % 4, c.to % 4); break;
     case 4: d = VNC::matrix_case(c.op, c.from % 4, c.to % 4); break;
     case 5: d = VAO::matrix_case(c.op, c.from % 4, c.to % 4); break;
+    case 6: d = VPD::matrix_case(c.op, c.from % 4, c.to % 4); break;
 #endif
     default: return "";
     }
@@ -405,6 +419,7 @@ void init_configs()
         Config{"variant<A,int,B,C>/TA", &VTA::run, VTA::NOPS, VTA::op_names, true},
         Config{"variant<A,int,B,C>/NC", &VNC::run, VNC::NOPS, VNC::op_names, true},
         Config{"variant<A,int,B,C>/AO", &VAO::run, VAO::NOPS, VAO::op_names, true},
+        Config{"variant<A,Pod,B,C>/TCM", &VPD::run, VPD::NOPS, VPD::op_names, true},
 #endif
     };
 }
@@ -414,7 +429,7 @@ void init_configs()
 void vf_run(vf::Ctx& c)
 {
     init_configs();
-    // E2: the complete matrix (every shard runs its slice; 6 element families x 15 ops x 4 x 4, split over the two builds of this TU)
+    // E2: the complete matrix (every shard runs its slice; 7 element families x 15 ops x 4 x 4, split over the two builds of this TU)
     std::uint64_t n = 0;
     for (std::uint32_t kind = kind_lo; kind < kind_hi; ++kind) {
         for (std::uint32_t op = 0; op < VCM::matrix_ops; ++op) {
